@@ -10,19 +10,38 @@ from ..common.bitsutil import Bits, mk_bits, concat, trunc, zext, sext, clog2, r
 
 PID = 'C05'
 DRIVERS = ['bits']
-MODULE = 'PymtlVerif.Props.C05'
+MODULE = ['PymtlVerif.Props.C05', 'PymtlVerif.Props.C04Gen']
 THEOREMS = ['PV.C05.' + t for t in [
   'get_slice', 'get_slice_bits', 'get_default_bounds', 'get_invalid', 'step_rejected', 'get_bit',
   'set_slice_bits', 'set_slice_int', 'set_too_wide', 'set_invalid', 'set_bit', 'set_bit_errors',
   'concat_spec', 'concat_layout', 'zext_spec', 'trunc_spec', 'sext_spec', 'sext_bits', 'reduce_spec',
   'clog2_spec', 'clog2_nonpositive']]
+# generated-from-source = model (Props/C04Gen.lean; Gen/BitsGen.lean is regenerated from /repo by pregen below)
+GEN_THEOREMS = ['PV.C04Gen.gen_' + t + '_eq' for t in [
+  'getitem_slice', 'getitem_int', 'setitem_slice', 'setitem_int', 'concat', 'trunc', 'zext', 'sext',
+  'truncT', 'zextT', 'sextT', 'clog2', 'reduce_and', 'reduce_or', 'reduce_xor',
+  # definitions the ones above are built from (constructor, x.int(), ~x, x + 1, the mask tables)
+  'init', 'int', 'invert', 'add', 'upperTab', 'lowerTab']]
+THEOREMS = THEOREMS + GEN_THEOREMS
+THEOREM_MODULE = {t: 'PymtlVerif.Props.C04Gen' for t in GEN_THEOREMS}
 TRUSTED = [
   'Model/Bits.lean slicing part follows PythonBits.__getitem__/__setitem__ (after the fix: commits that test bounds for None) and helpers.py',
   'a slice bound given as a Bits object is modelled by its int() value',
+  'tools/py2lean_bits.py (translator, trusted to render its Python subset faithfully): straight-line int code (+ - * // % & | ^ ~ << >>, comparisons, and/or/not, conditional expressions, int()/abs()/isinstance, _upper/_lower table reads), if/assert/raise/return, try/except resolved statically per operand kind (Bits / int / other; None / int bound; unset _next), for over *args and fuel-bounded while; Python ints as Lean Int through Gen/PyInt.lean (pyAnd, pyOr, pyXor, pyNot, pyShl, pyShr, pyFloorDiv, pyMod: trusted statements of the Python operators); implicit raises (ZeroDivisionError, negative shift count, table IndexError) are emitted as guards; exception messages are not evaluated; a raise ValueError under an `if` that reads `.nbits` is Err.width, any other Err.range (both are ValueError); `bN(v)` is read as `Bits(N, v)`; int() of a non-Bits, non-int operand raises TypeError; anything outside the subset makes the translator fail (broken obligation), never guess',
+  'helpers.py: the pure-Python `concat` (the definition in the `except` branch of `from mamba import concat`) is the one translated; clog2 is translated for an int argument (the float fallback is unreachable then and is not translated)',
 ]
 ASSUMPTIONS = ['clog2 is modelled for integer arguments only (the float fallback of the repaired clog2 is outside the model)']
 RULE = ('operation x width x boundary-biased value x bounds drawn from [-2, n+2] plus None and zero-valued Bits bounds; '
         'non-trivial = valid access with non-zero source, or any error; distinct = distinct canonical case tuple')
+
+def pregen(ck):
+  """translator-based tie: regenerate lean/PymtlVerif/Gen/BitsGen.lean from the current PythonBits.py / helpers.py
+  (written only if its content changed); Props/C04Gen.lean then re-proves generated = model"""
+  import importlib.util, os
+  path = os.path.join(leanio.VERIF, 'tools', 'py2lean_bits.py')
+  spec = importlib.util.spec_from_file_location('py2lean_bits', path)
+  mod = importlib.util.module_from_spec(spec); spec.loader.exec_module(mod)
+  return mod.pregen()
 
 ANYERR = 'ANYERR'
 
